@@ -507,6 +507,8 @@ var failures = []failure{
 	{"index-oob", `lst[7]`, "fatal", ""},
 	{"unwrap-none", `nothing.unwrap()`, "catchable", ""},
 	{"bad-cast", `"\"s\"".parse_json() as int`, "catchable", ""},
+	{"parse-int", `"12x".parse_int()`, "catchable", ""},
+	{"json-syntax", `"{".parse_json() as int`, "catchable", ""},
 	// the failing construct is a whole annotated let whose type is a NAME defined elsewhere in the file
 	{"annotated-let-named-type", `let r: Num = "\"s\"".parse_json();`, "catchable", "SITE"},
 	{"annotated-let-named-object-type", `let r: Rec = "{\"a\": \"s\"}".parse_json();`, "catchable", "SITE"},
@@ -560,12 +562,16 @@ func TestTableRuntime(t *testing.T) {
 									pub = "pub "
 								}
 								lib.WriteString("type Num = int;\ntype Rec = { a: int };\n")
+								lib.WriteString("fn thrower_inner(x: int) -> int {\n    if x >= 0 {\n        throw(\"early\");\n    }\n    x\n}\nfn thrower_outer(x: int) -> int {\n    let y = x;\n    thrower_inner(y) + 1\n}\n")
 								stmt := "let r = " + siteExpr(f) + ";"
 								if f.tmpl != "" {
 									stmt = strings.Replace(f.tmpl, "SITE", f.site, 1)
 								}
 								pre := prelude
 								if branchesBefore {
+									// ... and an exception raised two frames further down and caught here: the position of a later
+									// failure in THIS function is its own, not one inside the function that threw earlier
+									pre += "    try { println(thrower_outer(x)); } catch ce { println(\"C\", ce.line > 0); }\n"
 									pre += "    if x > 100 { println(\"a\"); }\n    if x > 200 { println(\"b\"); }\n    match x { 1000 => { println(\"m\"); }, _ => {} }\n    if x > 300 { println(\"c\"); } else { }\n    for q in 0..2 { if q > x { break; } }\n"
 								}
 								fmt.Fprintf(&lib, "fn lvl0(x: int) -> int {\n%s        %s\n    println(\"UNREACHED\");\n    x\n}\n", pre, stmt)
